@@ -316,9 +316,9 @@ def parse_model_spe(block):
 
 
 # ----------------------------------------------------------------------------- float replay of the coordinates
-def replay_coordinates(c, res, pairs_per_iter):
+def replay_coordinates(c, res, pairs_per_iter, start=None, want_lambda=False):
+    """binary64 transcription of the main loop of spe_embedding from the model's pairs; start = (Y, lambda) resumes"""
     N, d = c["N"], c["d"]
-    Y = [list(row) for row in res["Y0"]]
     R = res["R"]
     mx = 0.0
     for i in range(N):
@@ -326,7 +326,10 @@ def replay_coordinates(c, res, pairs_per_iter):
             mx = max(mx, R[i][j])
     alpha = (1.0 / mx * math.sqrt(2.0)) if c["global"] else 1.0
     T = c["maxiter"]
-    lam = 1.0
+    if start is None:
+        Y, lam = [list(row) for row in res["Y0"]], 1.0
+    else:
+        Y, lam = [list(row) for row in start[0]], start[1]
     tol = c["tol"]
     for ps in pairs_per_iter:
         Dn = [math.sqrt(sum((Y[a][t] - Y[b][t]) ** 2 for t in range(d))) for a, b in ps]
@@ -341,7 +344,7 @@ def replay_coordinates(c, res, pairs_per_iter):
             for t in range(d):
                 Y[b][t] -= f * yd[t]
         lam = lam - lam / T
-    return Y
+    return (Y, lam) if want_lambda else Y
 
 
 def stress(X, Y):
@@ -702,7 +705,11 @@ def eval_spe(ctx, exe, mexe, cases, st):
                     ctx.mismatch(pc, "centroid of the configuration moved: %.17g -> %.17g" % (s0, s1))
                     break
             if outs and outs[0]["pairs"] and len(step_jobs) < st.step_budget:
-                step_jobs.append((c, r, outs[0]["pairs"]))
+                # iteration chosen by the case's seed: the exact cross-check then also sees lambda_t of the decay schedule
+                t_x = c["shseed"] % T
+                state = replay_coordinates(c, r, [o["pairs"] for o in outs[:t_x]], want_lambda=True)
+                if is_finite_rows(state[0]):
+                    step_jobs.append((c, r, outs[t_x]["pairs"], state))
         if T >= 2 and nu >= 1:
             st.nontrivial.add(json.dumps([c["N"], c["global"], c["nupd"], c["maxiter"], c["shseed"], c["useed"], c["umode"]]))
         if len(st.samples) < 3:
@@ -713,9 +720,8 @@ def eval_spe(ctx, exe, mexe, cases, st):
     # (exact rationals) on the first iteration of each case, feeding the norms as value oracles
     if step_jobs:
         text, expect = [], []
-        for c, r, ps in step_jobs:
+        for c, r, ps, (Y, lam) in step_jobs:
             N, d = c["N"], c["d"]
-            Y = r["Y0"]
             R = r["R"]
             mx = max((R[i][j] for i in range(N) for j in range(i + 1, N)), default=0.0)
             alpha = (1.0 / mx * math.sqrt(2.0)) if c["global"] else 1.0
@@ -726,17 +732,16 @@ def eval_spe(ctx, exe, mexe, cases, st):
                 sq = sum((Fraction(Y[a][t]) - Fraction(Y[b][t])) ** 2 for t in range(d))
                 if abs(Fraction(dn) ** 2 - sq) > Fraction(1, 10 ** 12) * max(sq, Fraction(1, 10 ** 300)):
                     ctx.note("sqrt oracle contract off by more than 1e-12 in case %s" % c["id"])
-            t = ["STEP %d %d 1/1 %s" % (d, N, frac_str(c["tol"])),
+            t = ["STEP %d %d %s %s" % (d, N, frac_str(lam), frac_str(c["tol"])),
                  "PS " + " ".join("%d:%d" % p for p in ps),
                  "RT " + " ".join(frac_str(x) for x in Rt),
                  "DN " + " ".join(frac_str(x) for x in Dn)]
             for row in Y:
                 t.append("Y " + " ".join(frac_str(v) for v in row))
             text.append("\n".join(t) + "\n")
-            one = dict(c)
-            expect.append(replay_coordinates(one, r, [ps]))
+            expect.append(replay_coordinates(c, r, [ps], start=(Y, lam)))
         blocks = model_blocks(ctx, mexe, "".join(text), len(text))
-        for (c, r, ps), b, Yf in zip(step_jobs, blocks, expect):
+        for (c, r, ps, _), b, Yf in zip(step_jobs, blocks, expect):
             st.count("SPE/extracted-step-crosscheck")
             try:
                 rows = [[float(Fraction(x)) for x in line.split()[1:]] for line in b if line.startswith("ROW")]
@@ -745,8 +750,8 @@ def eval_spe(ctx, exe, mexe, cases, st):
             except (ValueError, ZeroDivisionError):
                 ok, worst = False, float("nan")
             if not ok:
-                ctx.mismatch(public(c), "binary64 transcription of the update differs from the extracted spe_step on the first "
-                                        "iteration by %.3g relative" % worst)
+                ctx.mismatch(public(c), "binary64 transcription of the update differs from the extracted spe_step on iteration "
+                                        "%d by %.3g relative" % (c["shseed"] % max(1, c["maxiter"]), worst))
 
 
 def eval_pairs(ctx, exe, mexe, cases, st):
@@ -762,6 +767,7 @@ def eval_pairs(ctx, exe, mexe, cases, st):
         pc = public(c)
         st.evals += 2
         st.count(c["kind"] + ("/exact" if c["exact"] else "/tolerance"))
+        st.count("range/" + str(c.get("rkind", "identity")))
         if r0["status"] == "SKIP" or r1["status"] == "SKIP":
             continue
         crashed = [r for r in (r0, r1) if r["crashed"] or r["status"] in ("GARBAGE", None)]
@@ -819,8 +825,10 @@ def eval_pairs(ctx, exe, mexe, cases, st):
                                           c["kind"], col, s, a, c.get("rkind")))
                     break
             else:
-                st.nontrivial.add(json.dumps([c["kind"], N, c["D"], d, c.get("gseed", c.get("srand"))]))
-        if c["kind"] == "FA" and finite and not ctx_has(ctx, pc):
+                st.nontrivial.add(json.dumps([c["kind"], N, c["D"], d, c.get("gseed", c.get("srand")), c.get("rkind")]))
+            if ctx_has(ctx, pc):
+                continue
+        if c["kind"] == "FA" and finite:
             # spec: the output is (centred designated samples) x (ONE loading matrix): every column of Y lies in the
             # column space of the centred designated data matrix (exact left null space, theorem fa_row_designated)
             wit = fa_span_violation(c, Y0)
@@ -1072,6 +1080,10 @@ def eval_moments(ctx, exe_plain, rng, st, reps):
             continue
         n, m1, m2, m3, m4, lag = r["MOM"]
         st.measured["moments"].append({"n": n, "mean": m1, "var": m2, "m3": m3, "m4": m4, "lag1": lag})
+        if not all(math.isfinite(v) for v in (m1, m2, m3, m4, lag)):
+            ctx.violation(pc, "gaussian_projection_matrix(%d, %d) (shipped gaussian_random, srand %d) returns non-finite entries: "
+                              "sample moments %r" % (c["D"], c["d"], c["srand"], r["MOM"][1:]))
+            continue
         sd = 1.0 / math.sqrt(n)
         # measured test, 6-sigma bands of a standard normal sample of size n (var of x^2 = 2, x^3 = 15, x^4 = 96)
         if (abs(m1) > 6 * sd or abs(m2 - 1) > 6 * sd * math.sqrt(2) or abs(m3) > 6 * sd * math.sqrt(15)
@@ -1115,6 +1127,11 @@ def eval_polar(ctx, exe_plain, mexe, rng, st, shapes):
             continue
         if len(flat) != len(xs):
             ctx.violation(pc, "gaussian_projection_matrix(%d, %d) returned %d entries" % (c["D"], c["d"], len(flat)))
+            continue
+        if not all(math.isfinite(v) for v in flat):
+            ctx.violation(pc, "gaussian_projection_matrix(%d, %d) after srand(%d) has a non-finite entry (%r): the polar method "
+                              "only returns x * sqrt(-2 ln r / r) for 0 < r < 1, which is finite (theorem polar_accepts_open_disc)" % (
+                                  c["D"], c["d"], c["srand"], [v for v in flat if not math.isfinite(v)][0]))
             continue
         bad = None
         for e, ((xq, sq), got) in enumerate(zip(xs, flat)):
@@ -1229,9 +1246,9 @@ def run(ctx):
     st = Stats()
     ctx.note("phase: Coq + extraction + both C++ builds done at %.1f s" % ctx.elapsed())
     # fa_replay shapes: (N, D, d, rounds, fa_epsilon); epsilon > 0 exercises `+ epsilon` in sig and the convergence test
-    fa_quick = [(4, 2, 1, 1, 0.0), (8, 2, 2, 1, 0.0), (4, 1, 1, 1, 0.0), (8, 2, 1, 1, 0.0), (4, 2, 1, 2, 0.0), (4, 1, 1, 2, 0.0),
-                (4, 2, 1, 0, 0.0), (4, 2, 1, 2, 0.25), (4, 2, 1, 3, 1048576.0), (4, 1, 1, 3, 64.0), (4, 2, 1, 5, 4096.0),
-                (4, 1, 1, 2, 0.0625), (4, 2, 1, 3, 4.0), (8, 1, 1, 3, 1024.0)]
+    fa_quick = [(4, 2, 1, 1, 0.0), (4, 2, 2, 1, 0.0), (4, 1, 1, 1, 0.0), (8, 2, 1, 1, 0.0), (4, 2, 1, 2, 0.0), (4, 1, 1, 2, 0.0),
+                (4, 2, 1, 0, 0.0), (8, 3, 2, 0, 0.0), (4, 2, 1, 2, 0.25), (4, 2, 1, 3, 1048576.0), (4, 1, 1, 3, 64.0),
+                (8, 1, 1, 5, 4096.0), (4, 1, 1, 2, 0.0625), (4, 1, 1, 3, 4.0), (8, 1, 1, 3, 1024.0), (8, 3, 1, 1, 0.5)]
     budget = ({"spe": 260, "bad": 30, "gstress": 40, "lstress": 30, "rp": 60, "fa": 45, "reps": 120000,
                "fa_replay": fa_quick, "polar": [(4, 3), (9, 2), (2, 5)]} if quick else
               {"spe": 3000, "bad": 200, "gstress": 300, "lstress": 200, "rp": 600, "fa": 400, "reps": 2000000,
@@ -1269,6 +1286,10 @@ def run(ctx):
              ">= 2 iterations, spec + exact index/pair replay + coordinate replay all evaluated, distinct by (N, strategy, nupdates, "
              "iterations, seeds).  RP/FA: translation pairs (exact: dyadic data, N a power of two, bit-for-bit; tolerance: "
              "generic N), rational replay of RP when sqrt(D) is exact; non-trivial = accepted pair with finite output.  "
+             "Every SPE / RP / FA case hands the library a range of sample ids drawn from: identity 0..n-1, sub-range of a larger "
+             "data set, permuted, subset in random order, offset ids, sparse ids, repeated ids (histogram range/*); all models are fed "
+             "the samples DESIGNATED by the range.  FA trajectory replays: fa_epsilon = 0 and > 0, 0..3 rounds (exact rationals).  "
+             "Polar replay: every entry of gaussian_projection_matrix from the logged std::rand answers.  "
              "Measured tests (not theorems): stress / neighbour error over seeds, moments of the shipped Gaussian.",
         samples=st.samples, histogram=st.hist, trusted_base=TRUSTED,
         assumptions=["finite input coordinates; data not all coincident for the global strategy (max distance 0 gives alpha = inf and NaN output: boundary, recorded in the notes)",
@@ -1278,7 +1299,8 @@ def run(ctx):
         extra={"measured_tests": {k: (v if k == "moments" else {"n": len(v), "median": (sorted(v)[len(v) // 2] if v else None),
                                                                  "max": (max(v) if v else None)})
                                   for k, v in st.measured.items()},
-               "traces_validated_against_impl": len(st.nontrivial)})
+               "traces_validated_against_impl": len(st.nontrivial),
+               "fa_trajectory_replay_worst_relative_difference": st.worst_fa})
 
 
 def replay(ctx, case):
